@@ -95,11 +95,11 @@ def reference(form, t):
     return host, port, path
 
 
-def mkreq(form, t):
+def mkreq(form, t, hosthdr=b'x'):
     tb = t.encode('utf-8')
     if form == 'abs':
-        return b'GET ' + tb + b' HTTP/1.1\r\nHost: x\r\n\r\n'
-    return b'CONNECT ' + tb + b' HTTP/1.1\r\nHost: x\r\n\r\n'
+        return b'GET ' + tb + b' HTTP/1.1\r\nHost: ' + hosthdr + b'\r\n\r\n'
+    return b'CONNECT ' + tb + b' HTTP/1.1\r\nHost: ' + hosthdr + b'\r\n\r\n'
 
 
 # ---------------------------------------------------------------- part A
@@ -164,6 +164,23 @@ def scenarios(tier):
                             features={'part': 'connect', 'form': form, 'host_kind': kind, 'userinfo': ui or 'none',
                                       'port': 'explicit' if port is not None else 'default',
                                       '_t': t, '_h': h, '_addr': addr, '_path': path_ref, '_expect': 'valid'}))
+    # the request-TARGET names the destination; a Host header that names the same host with another port (or
+    # another host altogether) does not
+    for (form, t, h, kind, ip, port, path, ui) in targets('quick'):
+        if ui or path not in ('', '/') or port not in (None, 8080):
+            continue
+        host_ref, port_ref, path_ref = reference(form, t)
+        want_port = port_ref if port_ref is not None else (443 if form == 'auth' else 80)
+        addr = (ip, want_port) if kind == 'name' else (h.strip('[]'), want_port)
+        dns = {h: ip, h.lower(): ip, 'elsewhere.test': '10.9.0.99'} if kind == 'name' else {'elsewhere.test': '10.9.0.99'}
+        beh = (lambda: HttpOrigin([], respond=lambda c, k, r: [OK])) if form == 'abs' else (lambda: RawOrigin(greeting=[b'hi']))
+        for hname, hv in (('same-host-other-port', h.encode('utf-8') + b':8081'), ('other-host', b'elsewhere.test:8081')):
+            out.append(Scenario('%s %s host-header=%s' % (form, t, hname), ['--threadless'], mode='local',
+                                clients=[dict(script=[('send', mkreq(form, t, hv)), ('wait_idle',), ('close',)])],
+                                origins={addr: beh}, dns=dns, kinds='', horizon=300,
+                                features={'part': 'connect', 'form': form, 'host_kind': kind, 'userinfo': 'none',
+                                          'port': 'explicit' if port is not None else 'default', 'host_header': hname,
+                                          '_t': t, '_h': h, '_addr': addr, '_path': path_ref, '_expect': 'valid'}))
     for (label, method, t, exp) in DAMAGED:
         tb = t if isinstance(t, bytes) else t.encode()
         raw = method.encode() + b' ' + tb + b' HTTP/1.1\r\nHost: x\r\n\r\n'
